@@ -101,7 +101,8 @@ CHECKS = {
              "(nothing lost, redelivered or reordered; counts unchanged), StrictlyAtOnce, any payload sizes, any geometry; C06_restart_keeps_topic, "
              "C06_next_after_restart, C06_batch_after_restart for every reachable state. The restart transformation of AEngR is tied to startup_chore (scan, "
              "synthetic ids, index hydration) by the correspondence: Eng.openInst and the real engine run the same ~600 restart histories per quick run and must "
-             "agree with AEngR operation by operation across every restart. Not proved: the recovery scan itself; AtLeastOnce restarts (oracle only). False on this "
+             "agree with AEngR operation by operation across every restart. C06_walk_recovers_laid_block (storage-level model: the entry walk of the recovery scan over one block returns exactly the entries laid out back to back in it and their extent, whatever else "
+             "the file holds). Not proved: the rest of the recovery scan (unit probing, block sizing, chain order); AtLeastOnce restarts (oracle only). False on this "
              "tree in three regions, reported as KNOWN-FINDING with corpus witnesses: emptyBlockAllocated, scanStopsAtEmptyBlock, clockRegressionReordersFiles "
              "(the statement's 'any wall-clock behaviour'); a fourth, sealThenAllocFail, is repaired.",
              note=BASE_NOTE + "Scope of the theorem: histories on which no trigger of the four open findings fires (friendlyFrom, monotone clock, entries <= MAX_ALLOC), StrictlyAtOnce, "
